@@ -462,6 +462,7 @@ pub fn c15_worlds(tier: Tier) -> Vec<WorldSpec> {
         .into_iter()
         .map(|xs| {
             let mut s = spec(Op::FromIter(xs), e, d);
+            s.cfg.pull_after_end = true;
             s.name = format!("{} E={} D={}", s.name, e, d);
             s
         })
